@@ -1216,7 +1216,7 @@ impl Prop for C19 {
     }
     fn cases(&self, tier: Tier) -> u32 {
         // average evaluations per message type (the draw is weighted, see `type_weight`)
-        let per_type = tier.pick(1500u64, 30_000u64);
+        let per_type = tier.pick(3000u64, 100_000u64);
         ((REGISTRY.len() as u64 * per_type + SHARDS - 1) / SHARDS) as u32
     }
     fn strategy(&self, tier: Tier) -> BoxedStrategy<Case> {
